@@ -231,7 +231,7 @@ class SubclassJSONSerializer:
             return data
 
         if isinstance(data, list_like_classes):
-            return [from_json(d) for d in data]
+            return [from_json(d, **kwargs) for d in data]
 
         if JSON_TYPE_NAME not in data:
             raise MissingTypeError()
@@ -357,11 +357,12 @@ def serialize_uuid(obj: uuid.UUID) -> Dict[str, Any]:
     }
 
 
-def deserialize_uuid(data: Dict[str, Any]) -> uuid.UUID:
+def deserialize_uuid(data: Dict[str, Any], **kwargs) -> uuid.UUID:
     """
     Deserialize a UUID from a JSON dictionary.
 
     :param data: Dictionary containing the UUID value
+    :param kwargs: The keyword arguments of from_json, handed to every registered deserializer (not used).
     :return: The deserialized UUID
     """
     return uuid.UUID(data["value"])
